@@ -65,8 +65,12 @@ class Sym(Interp):
             if isinstance(f, ast.Name) and f.id == 'len':
                 v = self.ev(e.args[0])
                 return sum(a[-1] for a in v)
-            if isinstance(f, ast.Attribute) and f.attr == 'prf' and src(f.value) == 'self' and len(e.args) == 2:
-                return (('prf', self.ev(e.args[0]), self.ev(e.args[1]), self.H),)
+            if isinstance(f, ast.Attribute) and f.attr == 'prf' and src(f.value) == 'self' and len(e.args) + len(e.keywords) == 2:
+                ps = self.prog.func('crypto.Prf.prf').call_params()
+                b = {ps[i]: a for i, a in enumerate(e.args)}
+                b.update({k.arg: k.value for k in e.keywords})
+                if set(b) == set(ps[:2]):
+                    return (('prf', self.ev(b[ps[0]]), self.ev(b[ps[1]]), self.H),)
             if isinstance(f, ast.Attribute) and f.attr == 'to_bytes' and len(e.args) >= 2:
                 n = self.ev(f.value)
                 return (('int', n, self.ev(e.args[0]), self.ev(e.args[1]), self.ev(e.args[0])),)
